@@ -159,11 +159,11 @@ pub fn lc_query_set_to_poly_query_set<'a>(linear_combinations: Vec<&'a LinearCom
 pub struct PC;
 impl PC {
 //@stub from=batch_default.rs id=lib.batch_check
-//@fn id=lib.check_combinations file=poly-commit/src/lib.rs scope="pub trait PolynomialCommitment<F: PrimeField, P: Polynomial<F>>: Sized" name=check_combinations props=C06,C05,C17
+//@fn id=lib.check_combinations file=poly-commit/src/lib.rs scope="pub trait PolynomialCommitment<F: PrimeField, P: Polynomial<F>>: Sized" name=check_combinations props=C06,C05,C17,C02
     #[verifier::loop_isolation(false)]
     fn check_combinations<'a>(vk: &VK, linear_combinations: Vec<&'a LinearCombination>, commitments: Vec<&'a LabeledCommitment<Comm>>, eqn_query_set: &BTreeSet<(String, (String, Pt))>, eqn_evaluations: &BTreeMap<(String, Pt), Fr>, proof: &BatchLCProof, sponge: &mut Sponge, rng: &mut Rng) -> (res: Result<bool, Error>)
     ensures
-        cc_post(vk, linear_combinations@, commitments@, eqn_query_set@, eqn_evaluations@, proof, old(sponge).st@, res, final(sponge).st@),   // name=lib.check_combinations.equations_then_batch_verification props=C06,C05,C17
+        cc_post(vk, linear_combinations@, commitments@, eqn_query_set@, eqn_evaluations@, proof, old(sponge).st@, res, final(sponge).st@),   // name=lib.check_combinations.equations_then_batch_verification props=C06,C05,C17,C02
 //@body
 //@r13
 //@rw 1 /let BatchLCProof \{ proof, evals \} = proof;/ => let bp__ = proof; let proof = &bp__.proof; let evals = &bp__.evals;
